@@ -17,8 +17,8 @@ let () =
   let mat e sz = String.concat "," (List.concat (List.init sz (fun i -> List.init sz (fun j -> string_of_int (int_of_z (e (nat_of_int i) (nat_of_int j))))))) in
   let dump () =
     let nn = !n in
-    Printf.sprintf "K=%s R=%s M=%s P=%s B=%s rowR=%s"
-      (mat (e_kernel k0 !s) nn) (mat (e_reg k0 !s) nn) (mat (e_mod k0 (z_of_int 2) (z_of_int (-1)) !s) nn)
+    Printf.sprintf "X=%s K=%s R=%s M=%s P=%s B=%s rowR=%s"
+      (mat (e_ex k0 !s) nn) (mat (e_kernel k0 !s) nn) (mat (e_reg k0 !s) nn) (mat (e_mod k0 (z_of_int 2) (z_of_int (-1)) !s) nn)
       (mat (m_entry !pm) nn) (mat (e_kernel k0 !blk) (2 * nn))
       (String.concat "," (List.map (fun z -> string_of_int (int_of_z z)) (d_row (e_reg k0) !s (nat_of_int (nn - 1)) O (nat_of_int nn)))) in
   (try while true do
